@@ -134,7 +134,7 @@ COL_POOL = [("name", "text"), ("email", "text"), ("age", "integer"), ("score", "
 SCRATCH_POOL = ["scratch", "tmp_import", "new_scratch", "staging", "new_staging", "backfill_tmp"]
 
 # operation kinds that only the hand writer can produce (atlas never plans them)
-HAND_ONLY = {"temp_table", "temp_column", "replace_table", "drop_cols_alter", "drop_cols_rebuild_variant", "readd_column", "recreate_table"}
+HAND_ONLY = {"rebuild_neighbor", "rename_drop", "rename_first_rebuild", "temp_table", "temp_column", "replace_table", "drop_cols_alter", "drop_cols_rebuild_variant", "readd_column", "recreate_table"}
 
 ADDITIVE = {"add_table", "add_column", "add_index", "add_column_rebuild"}
 TEMPORARY = {"temp_table", "temp_column"}
@@ -207,6 +207,13 @@ def apply_op(schema, op):
         t.indexes = [i for i in t.indexes if not (set(i.cols) & set(op["cols"]))]
         if op.get("intr"):
             apply_op(schema, op["intr"])
+    elif k == "rebuild_neighbor":
+        apply_op(schema, {"op": "drop_cols_rebuild", "t": op["t"], "cols": op["cols"]})
+        apply_op(schema, op["nb"])
+    elif k == "rename_drop":
+        del schema.tables[op["t"]]
+    elif k == "rename_first_rebuild":
+        apply_op(schema, {"op": "drop_cols_rebuild", "t": op["t"], "cols": op["cols"]})
     elif k == "readd_column":
         t = schema.tables[op["t"]]
         t.cols = [c for c in t.cols if c.name != op["col"].name] + [copy.deepcopy(op["col"])]
@@ -230,7 +237,7 @@ def apply_op(schema, op):
         raise ValueError(k)
 
 
-REBUILDS = {"drop_cols", "drop_cols_rebuild", "drop_cols_rebuild_variant", "add_column_rebuild"}
+REBUILDS = {"drop_cols", "drop_cols_rebuild", "drop_cols_rebuild_variant", "add_column_rebuild", "rebuild_neighbor"}
 
 
 def rebuild_tmp(op):
@@ -291,6 +298,39 @@ def hand_sql(schema, op, rng):
                 return st[:2] + ["UPDATE %s SET %s = %s" % (q("new_" + op["t"]), q("id"), q("id"))] + st[2:]
             raise ValueError(v)
         return rebuild_sql(bt, at, "new_" + op["t"])
+    if k == "rebuild_neighbor":
+        # a canonical rebuild of t and one destructive statement (group) on another object at a chosen slot:
+        # before the CREATE, right after the RENAME, or one statement after the RENAME
+        after = schema.clone()
+        apply_op(after, {"op": "drop_cols_rebuild", "t": op["t"], "cols": op["cols"]})
+        st = rebuild_sql(schema.tables[op["t"]], after.tables[op["t"]], "new_" + op["t"])
+        core, idx = st[:4], st[4:]
+        nb = hand_sql(after, op["nb"], rng)
+        if op["slot"] == "before":
+            return nb + core + idx
+        if op["slot"] == "after0":
+            return core + nb + idx
+        one = idx[:1] or ["UPDATE %s SET %s = %s" % (q(op["t"]), q("id"), q("id"))]
+        return core + one + nb + idx[1:]
+    if k == "rename_drop":
+        out, cur = [], op["t"]
+        for n in op["via"]:
+            out.append("ALTER TABLE %s RENAME TO %s" % (q(cur), q(n)))
+            cur = n
+        for f in op.get("fillers", []):
+            out.append("UPDATE %s SET %s = %s" % (q(cur), q("id"), q("id")))
+        out.append("DROP TABLE %s" % q(cur))
+        return out
+    if k == "rename_first_rebuild":
+        after = schema.clone()
+        apply_op(after, op)
+        bt, at = schema.tables[op["t"]], after.tables[op["t"]]
+        old = op["old"]
+        keep = [c.name for c in at.cols if c.gen is None]
+        out = ["ALTER TABLE %s RENAME TO %s" % (q(bt.name), q(old)), create_table_sql(at),
+               "INSERT INTO %s (%s) SELECT %s FROM %s" % (q(at.name), ", ".join(q(c) for c in keep), ", ".join(q(c) for c in keep), q(old)),
+               "DROP TABLE %s" % q(old)]
+        return out + [create_index_sql(i, at.name) for i in at.indexes]
     if k == "readd_column":
         t = schema.tables[op["t"]]
         c = op["col"]
@@ -311,21 +351,25 @@ def hand_sql(schema, op, rng):
     if k == "temp_table":
         t = op["table"]
         out = [create_table_sql(t)]
+        cur = t.name
         for n, f in enumerate(op["fillers"]):
             if f == "insert":
-                out.append("INSERT INTO %s (%s) VALUES (%d)" % (q(t.name), q("id"), 1000 + n))
+                out.append("INSERT INTO %s (%s) VALUES (%d)" % (q(cur), q("id"), 1000 + n))
             elif f == "index":
-                out.append("CREATE INDEX %s ON %s (%s)" % (q("idx_" + t.name + "_tmp"), q(t.name), q(t.cols[1].name)))
+                out.append("CREATE INDEX %s ON %s (%s)" % (q("idx_" + t.name + "_tmp"), q(cur), q(t.cols[1].name)))
             elif f == "dropcol" and len(t.cols) > 2:
-                out.append("ALTER TABLE %s DROP COLUMN %s" % (q(t.name), q(t.cols[-1].name)))
+                out.append("ALTER TABLE %s DROP COLUMN %s" % (q(cur), q(t.cols[-1].name)))
             elif f == "addcol":
-                out.append("ALTER TABLE %s ADD COLUMN %s integer NULL" % (q(t.name), q("extra_c")))
+                out.append("ALTER TABLE %s ADD COLUMN %s integer NULL" % (q(cur), q("extra_c")))
             elif f == "copy" and schema.tables:
                 src = sorted(schema.tables)[0]
-                out.append("INSERT INTO %s (%s) SELECT %s FROM %s" % (q(t.name), q("id"), q("id"), q(src)))
+                out.append("INSERT INTO %s (%s) SELECT %s FROM %s" % (q(cur), q("id"), q("id"), q(src)))
             elif f == "update":
-                out.append("UPDATE %s SET %s = %s WHERE %s > 5" % (q(t.name), q(t.cols[1].name), q(t.cols[1].name), q("id")))
-        out.append("DROP TABLE %s" % q(t.name))
+                out.append("UPDATE %s SET %s = %s WHERE %s > 5" % (q(cur), q(t.cols[1].name), q(t.cols[1].name), q("id")))
+            elif f == "rename" and cur + "_r" not in schema.tables:
+                out.append("ALTER TABLE %s RENAME TO %s" % (q(cur), q(cur + "_r")))
+                cur = cur + "_r"
+        out.append("DROP TABLE %s" % q(cur))
         return out
     if k == "temp_column":
         c = op["col"]
@@ -357,6 +401,8 @@ COMMENTS = {"add_table": "create table", "add_column": "add column", "add_index"
             "drop_cols_alter": "drop columns", "drop_cols": "rebuild without the columns", "drop_cols_rebuild": "rebuild without the columns",
             "drop_cols_rebuild_variant": "rebuild without the columns", "add_column_rebuild": "rebuild with the new column",
             "temp_table": "scratch table", "temp_column": "scratch column", "replace_table": "replace table",
+            "rebuild_neighbor": "rebuild without the columns, and clean up", "rename_drop": "move the table aside and drop it",
+            "rename_first_rebuild": "rebuild without the columns (rename first)",
             "readd_column": "change the column type: drop it and add it again", "recreate_table": "recreate the table from scratch"}
 
 
@@ -372,7 +418,7 @@ def render_hand_file(schema, ops, rng, header=True):
         ss = hand_sql(cur, op, rng)
         stmts.append((op, ss))
         apply_op(cur, op)
-    needs_pragma = style == "pragmas" and any(op["op"] in ("drop_cols", "drop_cols_rebuild", "drop_cols_rebuild_variant", "add_column_rebuild", "drop_table", "replace_table", "recreate_table") for op, _ in stmts)
+    needs_pragma = style == "pragmas" and any(op["op"] in ("drop_cols", "drop_cols_rebuild", "drop_cols_rebuild_variant", "add_column_rebuild", "drop_table", "replace_table", "recreate_table", "rebuild_neighbor", "rename_drop", "rename_first_rebuild") for op, _ in stmts)
     if needs_pragma:
         chunks.append("PRAGMA foreign_keys = off;\n")
     for op, ss in stmts:
@@ -434,7 +480,9 @@ def make_op(rng, schema, kind, writer, protect=(), target=None):
     """Build one operation of the requested kind against the state, or None when the state does not allow it.
     Tables in `protect` are left alone; `target` restricts the choice to one table."""
     names = sorted(n for n in schema.tables if n not in protect)
-    if target is not None:
+    if isinstance(target, (tuple, list)):
+        names = [t for t in target if t in schema.tables]
+    elif target is not None:
         names = [target] if target in schema.tables else []
     if kind == "add_table":
         n = fresh_table_name(rng, schema, taken=protect)
@@ -492,6 +540,46 @@ def make_op(rng, schema, kind, writer, protect=(), target=None):
             if how in REBUILDS and rebuild_tmp(op) in schema.tables:
                 continue
             return op
+        return None
+    if kind.startswith("rebuild_neighbor_"):
+        slot = kind[len("rebuild_neighbor_"):]
+        rng.shuffle(names)
+        for n in names:
+            t = schema.tables[n]
+            cands = [c.name for c in t.cols if c.gen is None and c.name != "id"]
+            others = [o for o in names if o != n and o != "new_" + n and n != "new_" + o]
+            if not cands or not others or "new_" + n in schema.tables:
+                continue
+            cols = [rng.choice(cands)]
+            y = schema.tables[rng.choice(others)]
+            free = [c.name for c in y.cols if c.gen is None and c.name != "id" and not any(c.name in i.cols for i in y.indexes)]
+            ycands = [c.name for c in y.cols if c.gen is None and c.name != "id"]
+            choices = ["drop_table"] + (["drop_cols_alter"] if free else []) + (["drop_cols_rebuild"] if ycands and "new_" + y.name not in schema.tables else [])
+            nk = rng.choice(choices)
+            if nk == "drop_table":
+                nb = {"op": "drop_table", "t": y.name}
+            elif nk == "drop_cols_alter":
+                nb = {"op": "drop_cols_alter", "t": y.name, "cols": [rng.choice(free)], "vonly": False}
+            else:
+                nb = {"op": "drop_cols_rebuild", "t": y.name, "cols": [rng.choice(ycands)], "vonly": False}
+            return {"op": "rebuild_neighbor", "t": n, "cols": cols, "slot": slot, "nb": nb, "vonly": False}
+        return None
+    if kind in ("rename_drop", "rename_chain"):
+        rng.shuffle(names)
+        for n in names:
+            via = [n + "_old"] if kind == "rename_drop" else [n + "_old", n + "_bak"] + ([n + "_gone"] if rng.random() < 0.3 else [])
+            if any(v in schema.tables for v in via):
+                continue
+            return {"op": "rename_drop", "t": n, "via": via, "fillers": ["update"] if rng.random() < 0.4 else []}
+        return None
+    if kind == "rename_first_rebuild":
+        rng.shuffle(names)
+        for n in names:
+            t = schema.tables[n]
+            cands = [c.name for c in t.cols if c.gen is None and c.name != "id"]
+            if not cands or n + "_old" in schema.tables:
+                continue
+            return {"op": "rename_first_rebuild", "t": n, "old": n + "_old", "cols": rng.sample(cands, min(len(cands), rng.choice([1, 1, 2]))), "vonly": False}
         return None
     if kind in ("readd_alter", "readd_rebuild"):
         rng.shuffle(names)
@@ -558,7 +646,9 @@ def make_op(rng, schema, kind, writer, protect=(), target=None):
         pool = [n for n in pool if n not in taken]
         t = rand_table(rng, rng.choice(pool), ncols=rng.randint(1, 3), gens=False)
         t.indexes = []
-        fillers = [rng.choice(["insert", "index", "addcol", "copy", "update", "dropcol"]) for _ in range(rng.choice([0, 1, 2, 2, 3, 4]))]
+        fillers = [rng.choice(["insert", "index", "addcol", "copy", "update", "dropcol", "rename"]) for _ in range(rng.choice([0, 1, 2, 2, 3, 4]))]
+        if t.name + "_r" in taken or "new_" + t.name + "_r" in taken:
+            fillers = [f for f in fillers if f != "rename"]
         for once in ("index", "addcol", "dropcol"):  # fixed object names: at most one of each
             if once in fillers:
                 fillers = [f for f in fillers if f != once] + [once]
@@ -587,13 +677,16 @@ ATLAS_KINDS = ["add_table", "add_column", "add_index", "add_column_rebuild", "dr
                "drop_vmix_before", "drop_vmix_after"]
 HAND_KINDS = ["add_table", "add_column", "add_index", "add_column_rebuild", "drop_table", "drop_col_alter", "drop_col_rebuild", "drop_col_rebuild",
               "drop_col_variant", "drop_virtual", "temp_table", "temp_table", "temp_column", "replace_table", "mixed", "mixed_additive_temp", "mixed_big",
-              "readd_alter", "readd_rebuild", "recreate_table", "drop_vmix_before", "drop_vmix_after", "rebuild_intruder"]
+              "readd_alter", "readd_rebuild", "recreate_table", "drop_vmix_before", "drop_vmix_after", "rebuild_intruder",
+              "rebuild_neighbor_before", "rebuild_neighbor_after0", "rebuild_neighbor_after1", "rename_drop", "rename_chain", "rename_first_rebuild"]
 
 # step kinds forced into an evolution (one per evolution, cycling over the evolution number), so that every
 # run -- whatever the seed -- contains each of these shapes several times
 FOCUS = [("readd_alter", "hand"), ("readd_rebuild", "hand"), ("recreate_table", "hand"), ("drop_vmix_before", "atlas"),
          ("drop_vmix_before", "hand"), ("drop_vmix_after", "atlas"), ("drop_vmix_after", "hand"), ("rebuild_intruder", "hand"),
-         None, None]
+         ("rebuild_neighbor_before", "hand"), ("rebuild_neighbor_after0", "hand"), ("rebuild_neighbor_after1", "hand"),
+         ("rebuild_then_drop", "atlas"), ("rename_drop", "hand"), ("rename_chain", "hand"), ("rename_first_rebuild", "hand"),
+         None, None, None]
 
 
 def op_label(op):
@@ -631,6 +724,29 @@ def gen_evolution(rng, nsteps=6, focus=None):
         apply_op(cur, op)
         ops.insert(rng.randint(0, len(ops)), op)
         protect = {target, "new_" + target}
+    if focus and (focus[0].startswith("rebuild_neighbor") or focus[0] == "rebuild_intruder"):
+        # keep two tables (without new_ siblings) untouched until the focus step
+        free = [n for n in sorted(cur.tables) if "new_" + n not in cur.tables and not (n.startswith("new_") and n[4:] in cur.tables)]
+        while len(free) < 2:
+            op = make_op(rng, cur, "add_table", writer)
+            n = op["table"].name
+            if n.startswith("new_") or "new_" + n in cur.tables:
+                continue
+            apply_op(cur, op)
+            ops.append(op)
+            free.append(n)
+        pair = rng.sample(free, 2)
+        target = tuple(pair)
+        protect = set(pair) | {"new_" + n for n in pair}
+    if focus and focus[0] == "rebuild_then_drop":
+        # `migrate diff` plans tables in name order: a rebuild of `audit` (no indexes) directly followed by DROP TABLE `zones`
+        for nm in ("audit", "zones"):
+            t = rand_table(rng, nm, ncols=rng.randint(2, 4), gens=False)
+            t.indexes = []
+            op = {"op": "add_table", "table": t}
+            apply_op(cur, op)
+            ops.append(op)
+        protect = {"audit", "new_audit", "zones", "new_zones"}
     if writer == "hand" and rng.random() < 0.5:
         tmp = make_op(rng, cur, "temp_table", writer, protect=protect)
         ops.insert(rng.randint(1, len(ops)), tmp)
@@ -641,17 +757,30 @@ def gen_evolution(rng, nsteps=6, focus=None):
     for stepno in range(1, nsteps + 1):
         writer = rng.choice(["atlas", "hand"])
         kinds = ATLAS_KINDS if writer == "atlas" else HAND_KINDS
+        if stepno == fpos and focus[0] == "rebuild_then_drop":
+            t = schema.tables["audit"]
+            fops = [{"op": "drop_cols", "t": "audit", "cols": [rng.choice([c.name for c in t.cols if c.name != "id"])], "vonly": False},
+                    {"op": "drop_table", "t": "zones"}]
+            steps.append({"writer": "atlas", "ops": fops, "kind": focus[0], "focus": True})
+            for o in fops:
+                apply_op(schema, o)
+            protect = set()
+            continue
         if stepno == fpos:
             fop = None
             for _try in range(10):
                 fop = make_op(rng, schema, focus[0], focus[1], target=target)
                 if fop is not None:
                     break
-            protect = set()
             if fop is not None:
+                protect = set()
                 steps.append({"writer": focus[1], "ops": [fop], "kind": focus[0], "focus": True})
                 apply_op(schema, fop)
                 continue
+            if stepno < nsteps:
+                fpos = stepno + 1  # the state does not allow it now: try again at the next step
+            else:
+                protect = set()
         for _try in range(20):
             kind = rng.choice(kinds)
             cur = schema.clone()
@@ -705,7 +834,11 @@ def compatible(ops, op):
         if k == "replace_table":
             return {o["t"], o["new"]}
         if k in REBUILDS:
-            return {o["t"], rebuild_tmp(o)} | (tabs(o["intr"]) if o.get("intr") else set())
+            return {o["t"], rebuild_tmp(o)} | (tabs(o["intr"]) if o.get("intr") else set()) | (tabs(o["nb"]) if o.get("nb") else set())
+        if k == "rename_drop":
+            return {o["t"]} | set(o["via"])
+        if k == "rename_first_rebuild":
+            return {o["t"], o["old"]}
         if k == "readd_column":
             return {o["t"], "new_" + o["t"]}
         return {o["t"]}
@@ -735,6 +868,10 @@ def file_class(ops):
     if len(ops) > 1:
         return "mixed_big" if len(ops) >= 6 else "mixed"
     o = ops[0]
+    if o["op"] == "rebuild_neighbor":
+        return "rebuild_neighbor:%s:%s" % (o["slot"], o["nb"]["op"])
+    if o["op"] == "rename_drop":
+        return "rename_drop" if len(o["via"]) == 1 else "rename_chain_drop"
     if o["op"] == "readd_column":
         return "readd_column:" + o["how"]
     if dropc and o.get("vmix"):
@@ -869,19 +1006,24 @@ def read_facts(con):
 
 def track_file(con, text):
     """Execute one file statement by statement and follow the objects that existed BEFORE the file:
-    a pre-existing table that disappears is a dropped table (cause: that statement) unless the statement is the
-    DROP of a rebuild group (CREATE tmp .. DROP t .. RENAME tmp TO t), in which case the table's identity continues
-    at the RENAME and the pre-existing columns missing there are dropped columns (cause: the group); a pre-existing
-    column that disappears from a surviving table is a dropped column (cause: that statement). Objects created by
-    the file itself (including a column or table re-created under an old name) are never 'pre-existing'.
+    * a pre-existing table that disappears is a dropped table (cause: that statement) unless
+      - the statement is the DROP of a rebuild group (CREATE tmp .. DROP t .. RENAME tmp TO t): the table's identity
+        continues at the RENAME and the pre-existing columns missing there are dropped columns (cause: the group);
+      - the statement is ALTER TABLE t RENAME TO u (and u appears): the same table lives on as u; when it is dropped
+        later, every RENAME on the way and the final DROP form the chain of statements that remove it;
+    * a pre-existing column that disappears from a surviving table is a dropped column (cause: that statement).
+    Objects created by the file itself (including a column or table re-created under an old name) are never
+    'pre-existing'.
 
-    Returns {"before", "after", "tables": [(t, i)], "columns": [(t, c, (a, b))], "virtual": [(t, c)], "stmts", "groups"}
-    where i is a statement index and (a, b) the inclusive statement index range of the cause."""
+    Returns {"before", "after", "tables": [{"t", "names", "stmts"}], "columns": [(t, c, (a, b))], "virtual": [(t, c)],
+    "stmts", "groups"}; for a table, t is its name before the file, names every name it carried, stmts the statement
+    indexes of its chain (renames + drop); (a, b) is the inclusive statement index range of a column's cause."""
     stmts = split_sql(text)
     _, _, groups = analyze_file(stmts)
     before = read_facts(con)
-    alive = {t: {c for c, h in cols.items() if h != "v"} for t, cols in before.items()}
-    valive = {t: {c for c, h in cols.items() if h == "v"} for t, cols in before.items()}
+    alive = {t: {"origin": t, "names": [t], "chain": [],
+                 "cols": {c for c, h in cols.items() if h != "v"}, "vcols": {c for c, h in cols.items() if h == "v"}}
+             for t, cols in before.items()}
     drop_at = {g[3]: g for g in groups}
     suspended = {}
     tabs, cols, virt = [], [], []
@@ -890,6 +1032,7 @@ def track_file(con, text):
         con.execute(s.text)
         now = read_facts(con)
         for t in sorted(alive):
+            o = alive[t]
             cause = (i, i)
             if t in suspended:
                 g = suspended[t]
@@ -902,15 +1045,20 @@ def track_file(con, text):
                 if g is not None and g[0] == t:
                     suspended[t] = g
                     continue
-                tabs.append((t, i))
                 del alive[t]
+                if s.kind == "rename_table" and s.args[0] == t and s.args[1] in now and s.args[1] not in alive:
+                    o["names"].append(s.args[1])
+                    o["chain"].append(i)
+                    alive[s.args[1]] = o
+                    continue
+                tabs.append({"t": o["origin"], "names": o["names"], "stmts": o["chain"] + [i]})
                 continue
-            for c in sorted(alive[t] - set(now[t])):
+            for c in sorted(o["cols"] - set(now[t])):
                 cols.append((t, c, cause))
-            for c in sorted(valive[t] - set(now[t])):
+            for c in sorted(o["vcols"] - set(now[t])):
                 virt.append((t, c))
-            alive[t] &= set(now[t])
-            valive[t] &= set(now[t])
+            o["cols"] &= set(now[t])
+            o["vcols"] &= set(now[t])
     return {"before": before, "after": now, "tables": tabs, "columns": cols, "virtual": virt, "stmts": stmts, "groups": groups}
 
 
